@@ -508,8 +508,9 @@ Print Assumptions long_run_raises_refuted.
      ordered_merge_correct_all stated on the keys themselves.
    * A conversion that is not injective on the keys present changes the join: the class of defect "harmonise the two
      key columns with a narrowing astype" (seeded change C02-r2-1), the defect of pandas 3.0 repaired by
-     work/SC02/fix-F-C02h.diff, and the known finding F-C02i (mixed int64/uint64/float keys are compared as binary64:
-     Model/KeyView.v key_view 1, wire flag kvs of Extract/E_C02.v), which needs a key of at least 2^53. *)
+     work/SC02/fix-F-C02h.diff, and the known finding F-C02i (mixed int64/uint64/float keys are compared as binary64;
+     on the pandas path that is a cast of both columns: Model/KeyView.v key_view 1, wire flag kvs of Extract/E_C02.v),
+     which needs a key of at least 2^53. *)
 Theorem join_pairs_key_embedding :
   forall f how L R, inj_rows f L R -> join_pairs how (map (map f) L) (map (map f) R) = join_pairs how L R.
 Proof. exact MergeView.join_pairs_key_embedding. Qed.
@@ -579,16 +580,16 @@ Proof.
 Qed.
 Print Assumptions narrowing_key_cast_refuted.
 
-Theorem binary64_key_comparison_refuted :       (* F-C02i, known finding: the repaired tree *)
-  (* streamed path and pandas path: left keys [2^53; 2^53 + 1], right key [2^53]: both left rows get the right row *)
-  data_cols (merge join_pairs (i_args true true (2 ^ 53))) = Ok [(nV, numcol [10;20]); (nW, numcol [30;30])] /\
-  merge join_pairs (i_args true false (2 ^ 53)) = Ok (false, [(nV, numcol [10;20]); (nW, numcol [30;30])]) /\
+Theorem binary64_key_comparison_refuted :       (* F-C02i, known finding: the repaired tree, hint-free merge *)
+  (* int64 left keys [2^53; 2^53 + 1], float64 right key [2^53]: pandas casts both columns to float64 (view flag 1) and
+     both left rows get the right row; the relational join leaves the second one unmatched *)
+  merge join_pairs (i_args true (2 ^ 53)) = Ok (false, [(nV, numcol [10;20]); (nW, numcol [30;30])]) /\
   merge_spec 0 [[2 ^ 53; 2 ^ 53 + 1]] [[2 ^ 53]] [(nV, numcol [10;20])] [(nW, numcol [30])] sufL sufR
   = [(nV, numcol [10;20]); (nW, numcol [30;0])] /\
-  (* one bit lower the same merge is the relational join; so it is at 2^53 when the pair is compared exactly *)
-  data_cols (merge join_pairs (i_args true true (2 ^ 52)))
-  = Ok (merge_spec 0 [[2 ^ 52; 2 ^ 52 + 1]] [[2 ^ 52]] [(nV, numcol [10;20])] [(nW, numcol [30])] sufL sufR) /\
-  data_cols (merge join_pairs (i_args false true (2 ^ 53)))
-  = Ok (merge_spec 0 [[2 ^ 53; 2 ^ 53 + 1]] [[2 ^ 53]] [(nV, numcol [10;20])] [(nW, numcol [30])] sufL sufR).
+  (* one bit lower the view changes nothing; at 2^53 an exactly compared pair gives the relational join (+ valid_r) *)
+  merge join_pairs (i_args true (2 ^ 52)) = merge join_pairs (i_args false (2 ^ 52)) /\
+  merge join_pairs (i_args false (2 ^ 53))
+  = Ok (false, merge_spec 0 [[2 ^ 53; 2 ^ 53 + 1]] [[2 ^ 53]] [(nV, numcol [10;20])] [(nW, numcol [30])] sufL sufR
+               ++ [(N_valid ++ sufR, CFix [0] [0] [[1];[0]])]).
 Proof. exact binary64_comparison_breaks_merge. Qed.
 Print Assumptions binary64_key_comparison_refuted.
